@@ -7,8 +7,8 @@ use std::io::Read;
 use std::panic::{catch_unwind, AssertUnwindSafe};
 use zip::ZipArchive;
 
-fn read_all(f: &mut dyn Read) -> Result<(u64, u32), String> {
-    let mut buf = vec![0u8; 4096];
+fn read_all(f: &mut dyn Read, bufsize: usize) -> Result<(u64, u32), String> {
+    let mut buf = vec![0u8; bufsize.max(1)];
     let (mut n, mut c) = (0u64, Crc::new());
     loop {
         match f.read(&mut buf) {
@@ -27,6 +27,7 @@ pub fn run(sc: &Value) -> Vec<Value> {
     let bytes = unhex(sc["hex"].as_str().unwrap_or(""));
     let epw: Vec<Option<Vec<u8>>> = sc.get("epw").and_then(|x| x.as_array()).map(|a| a.iter().map(|p| p.as_str().map(unhex)).collect()).unwrap_or_default();
     let via = sc["via"].as_str().unwrap_or("seek").to_string();
+    let bufsize = sc.get("buf").and_then(|x| x.as_u64()).unwrap_or(4096) as usize;
     let mut out = vec![];
     for k in sc["faults"].as_array().cloned().unwrap_or_default() {
         let mut plan = sc.get("under").cloned().unwrap_or(json!({}));
@@ -71,7 +72,7 @@ pub fn run(sc: &Value) -> Vec<Value> {
                                 }
                                 Ok(Ok(mut f)) => {
                                     let nm = hid(f.name().as_bytes());
-                                    match read_all(&mut f) {
+                                    match read_all(&mut f, bufsize) {
                                         Ok((n, c)) => outcome.push(json!({"name": nm, "len": n, "crc": hex32(c), "mode": f.unix_mode()})),
                                         Err(e) => {
                                             anyerr = true;
@@ -117,7 +118,7 @@ pub fn run(sc: &Value) -> Vec<Value> {
                                 }
                                 outcome.push(json!({"name": nm, "half": hex32(crc32(&b))}));
                             } else {
-                                match read_all(&mut f) {
+                                match read_all(&mut f, bufsize) {
                                     Ok((n, c)) => outcome.push(json!({"name": nm, "len": n, "crc": hex32(c)})),
                                     Err(e) => {
                                         anyerr = true;
